@@ -1,5 +1,7 @@
 import RtVerif.Model.C10
 import RtVerif.Lemmas.C10
+import RtVerif.Lemmas.C10URL
+import RtVerif.Lemmas.GoURLParse
 /-
   C10 — property theorems.
 
@@ -19,8 +21,7 @@ def substStep (t : Tok) (kv : Bytes × Bytes) : Tok := subst1 kv.1 (GoURL.pathEs
 def substToksSeq (params : List (Bytes × Bytes)) (toks : List Tok) : List Tok :=
   params.foldl (fun ts kv => ts.map (fun t => substStep t kv)) toks
 
-/-- Names that `substSeq` can be trusted with: no `{`/`}` inside (the property's placeholders). -/
-def NamesOk (params : List (Bytes × Bytes)) : Prop := ∀ kv ∈ params, braceFree kv.1 = true
+/-  `NamesOk params` (Lemmas/C10.lean): no `{`/`}` inside a parameter name (the property's placeholders). -/
 
 theorem substSeq_render (params : List (Bytes × Bytes)) (toks : List Tok)
     (hn : NamesOk params) (hw : WFToks toks) :
@@ -333,5 +334,455 @@ theorem query_precedence (base pattern caller : Values) (hp : (pattern.map (·.1
 example : (finalQuery [([97], [[49]])] [([97], [[50]]), ([98], [[51]])] [([98], [[52]])]).get [97] = some [[50]] ∧
     (finalQuery [([97], [[49]])] [([97], [[50]]), ([98], [[51]])] [([98], [[52]])]).get [98] = some [[52]] := by
   decide
+
+
+/-! ## End to end: the URL of the request (`build`)
+
+`path.Join`, the re-parse of the built string by `http.NewRequest`, `URL.EscapedPath()` and
+`Values.Encode` are inside the model now (`GoPath.join`, `GoURLParse.parse`, `GoURLParse.escapedPath`,
+`GoQuery.encode`).  A pattern is given by its segments: `patternOf psegs trailing` is
+`/s₁/…/sₙ` (+ `/`), every `sᵢ` a list of tokens (static text and `{name}` placeholders); a base path
+by its static segments: `basePathOf bs`. -/
+
+/-  The hypotheses of the end-to-end theorems are collected in `PathOk params bs psegs`
+    (RtVerif/Lemmas/C10URL.lean):
+      names        parameter names are brace-free
+      base_normal  the base path is clean: its segments are ordinary ones (non-empty, not `.`/`..`, no `/`)
+      base_static  … of static text without braces and without `%`
+      seg_normal   every segment of the pattern, as written, is an ordinary one (so static text and
+                   placeholder names hold no `/`)
+      seg_wf       well-formed tokens: no brace inside static text or a name
+      seg_static   static text of the pattern holds no `%` (a path template is not percent-encoded)
+      all_subst    every placeholder has a value
+      nonempty     the pattern has at least one segment
+    `f10a_pathOk` and `example_pathOk` below show concrete inputs that meet them. -/
+
+/-- **`path.Join` inside the model (general form)**: for a clean rooted base path and ANY non-empty
+pattern path, the joined path is what `Clean`'s stack machine makes of the pattern's segments on top
+of the base path's: empty segments (duplicate slashes) and `.` are dropped, `..` pops, everything else
+— a `{name}` placeholder in particular, which holds no `/` and is neither `.` nor `..` — is kept. -/
+theorem join_clean_base (bs : List Bytes) (hbs : ∀ b ∈ bs, GoPath.Normal b) (pp : Bytes) (hpp : pp ≠ []) :
+    GoPath.join (basePathOf bs) pp =
+      GoPath.render true (((GoPath.segs pp).foldl (GoPath.step true) bs.reverse).reverse) :=
+  join_base_general bs hbs pp hpp
+
+/-- a segment that holds a placeholder is an ordinary segment as soon as it holds no `/` -/
+theorem placeholder_segment_normal (a b n : Bytes) (h : GoPath.slash ∉ a ++ placeholder n ++ b) :
+    GoPath.Normal (a ++ placeholder n ++ b) := by
+  have hmem : lbrace ∈ a ++ placeholder n ++ b := by simp [placeholder]
+  refine ⟨?_, ?_, ?_, h⟩
+  · intro h0; rw [h0] at hmem; cases hmem
+  · intro h0; rw [h0] at hmem; revert hmem; decide
+  · intro h0; rw [h0] at hmem; revert hmem; decide
+
+/-- **`path.Join` inside the model (patterns made of ordinary segments)**: the joined path is the
+base path's segments followed by the pattern's, separated by single slashes, placeholders untouched;
+a trailing slash of the pattern is dropped by `Join` (and reinstated afterwards by `keepsSlash`). -/
+theorem join_pattern (bs : List Bytes) (hbs : ∀ b ∈ bs, GoPath.Normal b) (psegs : List (List Tok))
+    (hps : ∀ s ∈ psegs, GoPath.Normal (render s)) (hne : psegs ≠ []) (trailing : Bool) :
+    GoPath.join (basePathOf bs) (patternOf psegs trailing) = joinRooted (bs ++ psegs.map render) ∧
+      keepsSlash (patternOf psegs trailing) = trailing :=
+  ⟨join_base_pattern bs hbs psegs hps hne trailing, keepsSlash_patternOf psegs hps hne trailing⟩
+
+example : GoPath.join (basePathOf [[97, 112, 105]]) (patternOf [[.lit [112]], [.ph [105, 100]]] true) =
+    [47, 97, 112, 105, 47, 112, 47, 123, 105, 100, 125] := by decide
+
+/-- **the string handed to `http.NewRequest`**: `/` + the segments of base path and pattern, every
+placeholder replaced by its escaped value, + the pattern's trailing slash — whatever the order of the
+parameter list. -/
+theorem builtPath_eq {params : List (Bytes × Bytes)} {bs : List Bytes} {psegs : List (List Tok)}
+    (h : PathOk params bs psegs) (trailing : Bool) (bu pu : GoURLParse.URL)
+    (hb : bu.path = basePathOf bs) (hp : pu.path = patternOf psegs trailing) :
+    builtPath bu pu params =
+      joinRooted ((allSegs bs psegs).map (encodeSeg params)) ++ slashIf trailing := by
+  unfold builtPath urlPath
+  rw [hb, hp, join_base_pattern bs h.base_normal psegs h.seg_normal h.nonempty trailing,
+    keepsSlash_patternOf psegs h.seg_normal h.nonempty trailing, ← allSegs_render, ← render_toksOf,
+    substSeq_eq_substAll params _ h.names (wf_toksOf _ (allSegs_wf h)), substAll_toksOf]
+  rfl
+
+/-- **T1′ (the request URL carries exactly the pattern's segments)**.  Outside the two known classes
+(F10a: the built string starts with `//`; F10b: it holds a byte net/url does not accept in a path),
+`http.NewRequest`'s `url.Parse` of the built string succeeds and finds no scheme, no authority, no
+query and no fragment; `EscapedPath()` is the built string itself; and the decoded `Path` is `/` +
+the static segments and, in the place of every placeholder, the supplied VALUE — any bytes. -/
+theorem request_path_exact {params : List (Bytes × Bytes)} {bs : List Bytes} {psegs : List (List Tok)}
+    (h : PathOk params bs psegs) (trailing : Bool) (bu pu : GoURLParse.URL)
+    (hb : bu.path = basePathOf bs) (hp : pu.path = patternOf psegs trailing)
+    (ha : f10a (builtPath bu pu params) = false) (hv : f10b (builtPath bu pu params) = false) :
+    ∃ rp, GoURLParse.parse (builtPath bu pu params) =
+        some { path := joinRooted ((allSegs bs psegs).map (decodeSeg params)) ++ slashIf trailing, rawPath := rp } ∧
+      GoURLParse.escapedPath
+        { path := joinRooted ((allSegs bs psegs).map (decodeSeg params)) ++ slashIf trailing, rawPath := rp } =
+        builtPath bu pu params := by
+  have heq := builtPath_eq h trailing bu pu hb hp
+  have hu := unescape_built params (allSegs bs psegs) (allSegs_tokOk h) trailing
+  obtain ⟨s, r, hsr⟩ := List.exists_cons_of_ne_nil (allSegs_ne_nil h)
+  have hhead : ∃ t, builtPath bu pu params = GoURLParse.slash :: t := by
+    rw [heq, hsr, List.map_cons, joinRooted_cons]; exact ⟨_, rfl⟩
+  obtain ⟨t, ht⟩ := hhead
+  rw [← heq, ht] at hu
+  rw [ht] at ha hv ⊢
+  have hv' : GoURLParse.validEncoded (GoURLParse.slash :: t) = true := by
+    simpa [f10b] using hv
+  exact GoURLParse.parse_rooted t _ hv' ha hu
+
+
+/-! ### the same, read segment by segment -/
+
+/-- **T1′, segment by segment**: split at `/`, the escaped path of the request has exactly the
+segments of base path and pattern (after the empty one before the leading slash, and an empty one
+after a kept trailing slash), and each of them decodes (`PathUnescape`) to the static text with the
+supplied values in the place of the placeholders: a value never adds or removes a segment. -/
+theorem request_segments {params : List (Bytes × Bytes)} {bs : List Bytes} {psegs : List (List Tok)}
+    (h : PathOk params bs psegs) (trailing : Bool) (bu pu : GoURLParse.URL)
+    (hb : bu.path = basePathOf bs) (hp : pu.path = patternOf psegs trailing) :
+    GoPath.segs (builtPath bu pu params) =
+      [] :: ((allSegs bs psegs).map (encodeSeg params) ++ if trailing then [[]] else []) ∧
+    ∀ s ∈ allSegs bs psegs, GoURL.pathUnescape (encodeSeg params s) = some (decodeSeg params s) := by
+  refine ⟨?_, ?_⟩
+  · rw [builtPath_eq h trailing bu pu hb hp]
+    exact segs_joinRooted _ (allSegs_enc_noslash h) trailing
+  · intro s hs
+    have := unescape_encodeSeg params s (allSegs_tokOk h s hs) []
+    simpa [GoURL.pathUnescape, GoURL.unescape] using this
+
+
+/-! ### F10a: the known finding is real in the model, and its exact class -/
+
+/-- **F10a, exact class**: `http.NewRequest` reads an authority out of the built string exactly when
+the base path has no segment (`/`), the first segment of the pattern is empty once the values are in
+(it consists of placeholders whose values are all empty), and it is followed by a segment that is not
+empty itself, or by an empty last segment, or by nothing but a kept trailing slash. -/
+theorem f10a_class {params : List (Bytes × Bytes)} {bs : List Bytes} {psegs : List (List Tok)}
+    (h : PathOk params bs psegs) (trailing : Bool) (bu pu : GoURLParse.URL)
+    (hb : bu.path = basePathOf bs) (hp : pu.path = patternOf psegs trailing) :
+    f10a (builtPath bu pu params) = true ↔
+      bs = [] ∧ ∃ s₁ rest, psegs = s₁ :: rest ∧ decodeSeg params s₁ = [] ∧
+        (match rest with
+         | [] => trailing = true
+         | s₂ :: rest' => ¬ (decodeSeg params s₂ = [] ∧ (rest' ≠ [] ∨ trailing = true))) := by
+  rw [builtPath_eq h trailing bu pu hb hp, f10a, authority_iff _ (allSegs_enc_noslash h) trailing]
+  cases bs with
+  | cons b bs' =>
+    have hb0 : b ≠ [] := (h.base_normal b List.mem_cons_self).1
+    simp [allSegs, encodeSeg, encodeTok, hb0]
+  | nil =>
+    simp only [allSegs, List.map_nil, List.nil_append, true_and]
+    constructor
+    · rintro ⟨r, hr, hm⟩
+      cases psegs with
+      | nil => simp at hr
+      | cons s₁ rest =>
+        simp only [List.map_cons, List.cons.injEq] at hr
+        refine ⟨s₁, rest, rfl, (encodeSeg_eq_nil params s₁).mp hr.1, ?_⟩
+        obtain ⟨_, rfl⟩ := hr
+        cases rest with
+        | nil => simpa using hm
+        | cons s₂ rest' =>
+          simp only [List.map_cons, encodeSeg_eq_nil, ne_eq, List.map_eq_nil_iff] at hm
+          simpa using hm
+    · rintro ⟨s₁, rest, rfl, h1, hm⟩
+      refine ⟨rest.map (encodeSeg params), by simp [(encodeSeg_eq_nil params s₁).mpr h1], ?_⟩
+      cases rest with
+      | nil => simpa using hm
+      | cons s₂ rest' =>
+        simp only [List.map_cons, encodeSeg_eq_nil, ne_eq, List.map_eq_nil_iff]
+        simpa using hm
+
+/-- the pattern `/{a}/pets` with `a = ""` on the base path `/` meets the hypotheses -/
+theorem f10a_pathOk : PathOk [([97], [])] [] [[.ph [97]], [.lit [112, 101, 116, 115]]] where
+  names := by intro kv hkv; simp at hkv; subst hkv; decide
+  base_normal := by intro b hb; cases hb
+  base_static := by intro b hb; cases hb
+  seg_normal := by
+    intro s hs
+    simp only [List.mem_cons, List.not_mem_nil, or_false] at hs
+    rcases hs with rfl | rfl <;> (refine ⟨?_, ?_, ?_, ?_⟩ <;> decide)
+  seg_wf := by
+    intro s hs t ht
+    simp only [List.mem_cons, List.not_mem_nil, or_false] at hs
+    rcases hs with rfl | rfl <;> (simp only [List.mem_cons, List.not_mem_nil, or_false] at ht; subst ht; decide)
+  seg_static := by
+    intro s hs b hb
+    simp only [List.mem_cons, List.not_mem_nil, or_false] at hs
+    rcases hs with rfl | rfl <;> simp at hb
+    subst hb; decide
+  all_subst := by
+    intro s hs n hn
+    simp only [List.mem_cons, List.not_mem_nil, or_false] at hs
+    rcases hs with rfl | rfl <;> simp at hn
+    subst hn; decide
+  nonempty := by simp
+
+/-- **F10a is real in the model**: for the base path `/`, the pattern `/{a}/pets` and `a = ""`, the
+string handed to `http.NewRequest` is `//pets`; `url.Parse` reads `pets` as the HOST and the path of
+the request is empty (the runtime then overwrites the host with its own: the request goes to the
+root of the API). -/
+theorem f10a_witness :
+    builtPath { path := [47] } { path := [47, 123, 97, 125, 47, 112, 101, 116, 115] } [([97], [])] =
+        [47, 47, 112, 101, 116, 115] ∧
+      GoURLParse.parse [47, 47, 112, 101, 116, 115] = some { host := [112, 101, 116, 115] } ∧
+      GoURLParse.escapedPath { host := [112, 101, 116, 115] } = [] ∧
+      f10a [47, 47, 112, 101, 116, 115] = true := by
+  refine ⟨?_, by decide, by decide, by decide⟩
+  rw [builtPath_eq f10a_pathOk false _ _ (by decide) (by decide)]
+  decide
+
+
+/-! ### F10b: exact class -/
+
+/-- **F10b, exact class**: once every placeholder has a value, the built string holds a byte net/url
+does not accept in an encoded path exactly when the STATIC text of base path or pattern holds one
+(`validEncodedByte` lists the accepted bytes: unreserved characters, `%`, and `! $ & ' ( ) * + , ; = : @ [ ]`
+and `/`): values can never cause it. -/
+theorem f10b_class {params : List (Bytes × Bytes)} {bs : List Bytes} {psegs : List (List Tok)}
+    (h : PathOk params bs psegs) (trailing : Bool) (bu pu : GoURLParse.URL)
+    (hb : bu.path = basePathOf bs) (hp : pu.path = patternOf psegs trailing) :
+    f10b (builtPath bu pu params) = true ↔
+      ∃ s ∈ allSegs bs psegs, ∃ b, Tok.lit b ∈ s ∧ ∃ c ∈ b, GoURLParse.validEncodedByte c = false := by
+  rw [builtPath_eq h trailing bu pu hb hp]
+  constructor
+  · intro hf
+    apply Classical.byContradiction
+    intro hno
+    have hall : ∀ s ∈ allSegs bs psegs, ∀ b, Tok.lit b ∈ s → ∀ c ∈ b, GoURLParse.validEncodedByte c = true := by
+      intro s hs b hbs c hc
+      cases hvc : GoURLParse.validEncodedByte c with
+      | true => rfl
+      | false => exact absurd ⟨s, hs, b, hbs, c, hc, hvc⟩ hno
+    have : GoURLParse.validEncoded (joinRooted ((allSegs bs psegs).map (encodeSeg params)) ++ slashIf trailing) = true := by
+      simp only [GoURLParse.validEncoded, List.all_eq_true, List.mem_append]
+      rintro c (hc | hc)
+      · rcases mem_joinRooted.mp hc with ⟨_, rfl⟩ | ⟨x, hx, hcx⟩
+        · decide
+        · obtain ⟨s, hs, rfl⟩ := List.mem_map.mp hx
+          simp only [encodeSeg, List.mem_flatMap] at hcx
+          obtain ⟨t, ht, hct⟩ := hcx
+          refine valid_encodeTok params t ?_ ?_ c hct
+          · intro b hb'; subst hb'; exact hall s hs b ht
+          · intro n hn; subst hn
+            have := allSegs_tokOk h s hs _ ht
+            exact this
+      · exact valid_slashIf trailing c hc
+    simp [f10b, this] at hf
+  · rintro ⟨s, hs, b, hbs, c, hc, hvc⟩
+    have hmem : c ∈ joinRooted ((allSegs bs psegs).map (encodeSeg params)) ++ slashIf trailing := by
+      apply List.mem_append_left
+      apply mem_joinRooted.mpr
+      right
+      refine ⟨encodeSeg params s, List.mem_map.mpr ⟨s, hs, rfl⟩, ?_⟩
+      simp only [encodeSeg, List.mem_flatMap]
+      exact ⟨.lit b, hbs, hc⟩
+    simp only [f10b, Bool.not_eq_eq_eq_not, Bool.not_true]
+    cases hva : GoURLParse.validEncoded (joinRooted ((allSegs bs psegs).map (encodeSeg params)) ++ slashIf trailing) with
+    | false => rfl
+    | true =>
+      simp only [GoURLParse.validEncoded, List.all_eq_true] at hva
+      rw [hva c hmem] at hvc; cases hvc
+
+/-- static text made of bytes `validEncoded` accepts is never in the F10b class -/
+theorem not_f10b_of_valid_static {params : List (Bytes × Bytes)} {bs : List Bytes} {psegs : List (List Tok)}
+    (h : PathOk params bs psegs) (trailing : Bool) (bu pu : GoURLParse.URL)
+    (hb : bu.path = basePathOf bs) (hp : pu.path = patternOf psegs trailing)
+    (hst : ∀ s ∈ allSegs bs psegs, ∀ b, Tok.lit b ∈ s → ∀ c ∈ b, GoURLParse.validEncodedByte c = true) :
+    f10b (builtPath bu pu params) = false := by
+  cases hf : f10b (builtPath bu pu params) with
+  | false => rfl
+  | true =>
+    obtain ⟨s, hs, b, hbs, c, hc, hvc⟩ := (f10b_class h trailing bu pu hb hp).mp hf
+    rw [hst s hs b hbs c hc] at hvc
+    cases hvc
+
+/-- static text made of bytes that `escape(·, encodePath)` leaves alone is never in the F10b class -/
+theorem not_f10b_of_plain_static {params : List (Bytes × Bytes)} {bs : List Bytes} {psegs : List (List Tok)}
+    (h : PathOk params bs psegs) (trailing : Bool) (bu pu : GoURLParse.URL)
+    (hb : bu.path = basePathOf bs) (hp : pu.path = patternOf psegs trailing)
+    (hst : ∀ s ∈ allSegs bs psegs, ∀ b, Tok.lit b ∈ s → ∀ c ∈ b, GoURLParse.shouldEscape .path c = false) :
+    f10b (builtPath bu pu params) = false := by
+  cases hf : f10b (builtPath bu pu params) with
+  | false => rfl
+  | true =>
+    obtain ⟨s, hs, b, hbs, c, hc, hvc⟩ := (f10b_class h trailing bu pu hb hp).mp hf
+    rw [GoURLParse.plain_valid c (hst s hs b hbs c hc)] at hvc
+    cases hvc
+
+/-! ### T4′: the query on the wire -/
+
+/-- what a key of a `url.Values` transmits: its values when there is at least one -/
+def transmitted : Option (List Bytes) → Option (List Bytes)
+  | some (v :: r) => some (v :: r)
+  | _ => none
+
+/-- **T4′**: `RawQuery` is `Values.Encode` of the merged parameters, and `url.ParseQuery` reads it
+back without error as exactly the map "caller over pattern over base path" (a key set without any
+value is not transmitted) — any bytes as keys and values. -/
+theorem rawQuery_round_trip (base pattern caller : Values) (hp : (pattern.map (·.1)).Nodup)
+    (hc : (caller.map (·.1)).Nodup) :
+    (GoQuery.parseQuery (GoQuery.encode (finalQuery base pattern caller))).ok = true ∧
+    ∀ k, Values.get (GoQuery.parseQuery (GoQuery.encode (finalQuery base pattern caller))).values k =
+      transmitted ((Values.get caller k).or ((Values.get pattern k).or (Values.get base k))) := by
+  have hd := finalQuery_nodup base pattern caller hc
+  obtain ⟨h1, h2⟩ := GoQuery.parse_encode (finalQuery base pattern caller) hd
+  refine ⟨h1, fun k => ?_⟩
+  rw [get_eq, h2 k, ← get_eq, query_precedence base pattern caller hp k]
+  rfl
+
+/-! ### the whole request URL -/
+
+/-- **End to end (`build` = `Runtime.CreateHttpRequest`)**: for a base path and a pattern that
+`url.Parse` reads as a clean rooted path / a pattern of ordinary segments (each possibly with a
+query), every placeholder supplied, and outside the known classes F10a and F10b, the request is
+built; its URL has the runtime's scheme and host, no user info, no opaque part, no fragment; its
+`EscapedPath()` is `/` + the segments with the ESCAPED values, its `Path` the same with the values
+themselves; its `RawQuery` is the encoded merge of the three query sources and parses back to
+"caller over pattern over base path". -/
+theorem build_exact {params : List (Bytes × Bytes)} {bs : List Bytes} {psegs : List (List Tok)}
+    (h : PathOk params bs psegs) (trailing : Bool) (basePath pattern : Bytes) (bu pu : GoURLParse.URL)
+    (hpb : GoURLParse.parse basePath = some bu) (hpp : GoURLParse.parse pattern = some pu)
+    (hb : bu.path = basePathOf bs) (hp : pu.path = patternOf psegs trailing)
+    (ha : f10a (builtPath bu pu params) = false) (hv : f10b (builtPath bu pu params) = false)
+    (caller : Values) (hc : (caller.map (·.1)).Nodup) (scheme host : Bytes) :
+    ∃ u, build basePath pattern params caller scheme host = some u ∧
+      u.scheme = scheme ∧ u.host = host ∧ u.user = none ∧ u.opaq = [] ∧ u.fragment = [] ∧ u.forceQuery = false ∧
+      GoURLParse.escapedPath u = joinRooted ((allSegs bs psegs).map (encodeSeg params)) ++ slashIf trailing ∧
+      u.path = joinRooted ((allSegs bs psegs).map (decodeSeg params)) ++ slashIf trailing ∧
+      u.rawQuery = GoQuery.encode (finalQuery (queryOf bu) (queryOf pu) caller) ∧
+      (GoQuery.parseQuery u.rawQuery).ok = true ∧
+      ∀ k, Values.get (GoQuery.parseQuery u.rawQuery).values k =
+        transmitted ((Values.get caller k).or ((Values.get (queryOf pu) k).or (Values.get (queryOf bu) k))) := by
+  obtain ⟨rp, hparse, hesc⟩ := request_path_exact h trailing bu pu hb hp ha hv
+  obtain ⟨hq1, hq2⟩ := rawQuery_round_trip (queryOf bu) (queryOf pu) caller (parseQuery_nodup _) hc
+  have hbuild : build basePath pattern params caller scheme host =
+      some (finishURL { path := joinRooted ((allSegs bs psegs).map (decodeSeg params)) ++ slashIf trailing, rawPath := rp }
+        bu pu caller scheme host) := by
+    simp only [build, hpb, hpp, hparse]
+  refine ⟨_, hbuild, rfl, rfl, rfl, rfl, rfl, rfl, ?_, rfl, rfl, hq1, hq2⟩
+  rw [← builtPath_eq h trailing bu pu hb hp, ← hesc]
+  rfl
+
+
+/-- **End to end, from the strings the runtime holds**: the parse hypotheses of `build_exact` are
+discharged for every base path `/b₁/…/bₘ[?query]` (clean, rooted — what `client.New` leaves — with
+static segments of valid path bytes) and every pattern `/s₁/…/sₙ[/][?query]` of ordinary segments
+whose static text consists of valid path bytes and whose placeholder names hold no `% ? #` or control
+byte; the queries are arbitrary bytes without `#` and control bytes.  With valid static bytes the
+class F10b is empty (`f10b_class`), so only F10a is excluded. -/
+theorem build_exact_plain {params : List (Bytes × Bytes)} {bs : List Bytes} {psegs : List (List Tok)}
+    (h : PathOk params bs psegs) (trailing : Bool) (bq pq : Bytes)
+    (hbq : ∀ c ∈ bq, c ≠ 35 ∧ (c < 32 || c == 127) = false)
+    (hpq : ∀ c ∈ pq, c ≠ 35 ∧ (c < 32 || c == 127) = false)
+    (hst : ∀ s ∈ allSegs bs psegs, ∀ b, Tok.lit b ∈ s → ∀ c ∈ b, GoURLParse.validEncodedByte c = true)
+    (hnm : ∀ s ∈ psegs, ∀ n, Tok.ph n ∈ s → ∀ c ∈ n, GoURLParse.PlainByte c)
+    (ha : f10a (joinRooted ((allSegs bs psegs).map (encodeSeg params)) ++ slashIf trailing) = false)
+    (caller : Values) (hc : (caller.map (·.1)).Nodup) (scheme host : Bytes) :
+    ∃ u, build (basePathOf bs ++ GoURLParse.withQuery bq) (patternOf psegs trailing ++ GoURLParse.withQuery pq)
+        params caller scheme host = some u ∧
+      u.scheme = scheme ∧ u.host = host ∧ u.user = none ∧ u.opaq = [] ∧ u.fragment = [] ∧ u.forceQuery = false ∧
+      GoURLParse.escapedPath u = joinRooted ((allSegs bs psegs).map (encodeSeg params)) ++ slashIf trailing ∧
+      u.path = joinRooted ((allSegs bs psegs).map (decodeSeg params)) ++ slashIf trailing ∧
+      (GoQuery.parseQuery u.rawQuery).ok = true ∧
+      ∀ k, Values.get (GoQuery.parseQuery u.rawQuery).values k =
+        transmitted ((Values.get caller k).or ((Values.get (GoQuery.parseQuery pq).values k).or
+          (Values.get (GoQuery.parseQuery bq).values k))) := by
+  have hstb : ∀ b ∈ bs, ∀ c ∈ b, GoURLParse.validEncodedByte c = true := by
+    intro b hb c hcb
+    exact hst [Tok.lit b] (by simp [allSegs]; exact Or.inl hb) b List.mem_cons_self c hcb
+  have hstp : ∀ s ∈ psegs, ∀ b, Tok.lit b ∈ s → ∀ c ∈ b, GoURLParse.validEncodedByte c = true := by
+    intro s hs b hb c hcb
+    exact hst s (by simp [allSegs]; exact Or.inr hs) b hb c hcb
+  obtain ⟨tb, hbe, hbp, hba⟩ := basePath_plain h hstb
+  obtain ⟨tp, hpe, hpp, hpa⟩ := pattern_plain h trailing hstp hnm
+  have hparseB := GoURLParse.parse_plain tb bq hbp hba hbq
+  have hparseP := GoURLParse.parse_plain tp pq hpp hpa hpq
+  rw [← hbe] at hparseB
+  rw [← hpe] at hparseP
+  obtain ⟨bu, hB, hbpath, hbquery⟩ : ∃ bu, GoURLParse.parse (basePathOf bs ++ GoURLParse.withQuery bq) = some bu ∧
+      bu.path = basePathOf bs ∧ queryOf bu = (GoQuery.parseQuery bq).values := ⟨_, hparseB, rfl, rfl⟩
+  obtain ⟨pu, hP, hppath, hpquery⟩ : ∃ pu, GoURLParse.parse (patternOf psegs trailing ++ GoURLParse.withQuery pq) = some pu ∧
+      pu.path = patternOf psegs trailing ∧ queryOf pu = (GoQuery.parseQuery pq).values := ⟨_, hparseP, rfl, rfl⟩
+  have hbuilt := builtPath_eq h trailing bu pu hbpath hppath
+  have hv := not_f10b_of_valid_static h trailing bu pu hbpath hppath hst
+  obtain ⟨u, h1, h2, h3, h4, h5, h6, h7, h8, h9, _, h11, h12⟩ :=
+    build_exact h trailing _ _ bu pu hB hP hbpath hppath (by rw [hbuilt]; exact ha) hv caller hc scheme host
+  rw [hbquery, hpquery] at h12
+  exact ⟨u, h1, h2, h3, h4, h5, h6, h7, h8, h9, h11, h12⟩
+
+/-- base path `/api`, pattern `/pets/{id}`, `id = "a/b"` meet the hypotheses -/
+theorem example_pathOk : PathOk [([105, 100], [97, 47, 98])] [[97, 112, 105]] [[.lit [112, 101, 116, 115]], [.ph [105, 100]]] where
+  names := by intro kv hkv; simp at hkv; subst hkv; decide
+  base_normal := by
+    intro b hb; simp only [List.mem_cons, List.not_mem_nil, or_false] at hb; subst hb
+    refine ⟨?_, ?_, ?_, ?_⟩ <;> decide
+  base_static := by
+    intro b hb; simp only [List.mem_cons, List.not_mem_nil, or_false] at hb; subst hb
+    refine ⟨?_, ?_⟩ <;> decide
+  seg_normal := by
+    intro s hs
+    simp only [List.mem_cons, List.not_mem_nil, or_false] at hs
+    rcases hs with rfl | rfl <;> (refine ⟨?_, ?_, ?_, ?_⟩ <;> decide)
+  seg_wf := by
+    intro s hs t ht
+    simp only [List.mem_cons, List.not_mem_nil, or_false] at hs
+    rcases hs with rfl | rfl <;> (simp only [List.mem_cons, List.not_mem_nil, or_false] at ht; subst ht; decide)
+  seg_static := by
+    intro s hs b hb
+    simp only [List.mem_cons, List.not_mem_nil, or_false] at hs
+    rcases hs with rfl | rfl <;> simp at hb
+    subst hb; decide
+  all_subst := by
+    intro s hs n hn
+    simp only [List.mem_cons, List.not_mem_nil, or_false] at hs
+    rcases hs with rfl | rfl <;> simp at hn
+    subst hn; decide
+  nonempty := by simp
+
+/-- `CreateHttpRequest` for base path `/api?x=1`, pattern `/pets/{id}?y=2`, `id = "a/b"` and the
+caller's `x=9`: the request goes to `/api/pets/a%2Fb?x=9&y=2`, and its decoded path is `/api/pets/a/b`. -/
+example : ∃ u, build [47, 97, 112, 105, 63, 120, 61, 49] [47, 112, 101, 116, 115, 47, 123, 105, 100, 125, 63, 121, 61, 50]
+      [([105, 100], [97, 47, 98])] [([120], [[57]])] http [104] = some u ∧
+    GoURLParse.escapedPath u = [47, 97, 112, 105, 47, 112, 101, 116, 115, 47, 97, 37, 50, 70, 98] ∧
+    u.path = [47, 97, 112, 105, 47, 112, 101, 116, 115, 47, 97, 47, 98] ∧
+    u.rawQuery = [120, 61, 57, 38, 121, 61, 50] := by
+  have hb : GoURLParse.parse [47, 97, 112, 105, 63, 120, 61, 49] = some { path := [47, 97, 112, 105], rawQuery := [120, 61, 49] } := by decide
+  have hp : GoURLParse.parse [47, 112, 101, 116, 115, 47, 123, 105, 100, 125, 63, 121, 61, 50] =
+      some { path := [47, 112, 101, 116, 115, 47, 123, 105, 100, 125], rawPath := [47, 112, 101, 116, 115, 47, 123, 105, 100, 125], rawQuery := [121, 61, 50] } := by decide
+  have hbp := builtPath_eq example_pathOk false { path := [47, 97, 112, 105], rawQuery := [120, 61, 49] }
+    { path := [47, 112, 101, 116, 115, 47, 123, 105, 100, 125], rawPath := [47, 112, 101, 116, 115, 47, 123, 105, 100, 125], rawQuery := [121, 61, 50] }
+    (by decide) (by decide)
+  obtain ⟨u, h1, _, _, _, _, _, _, h2, h3, h4, _⟩ := build_exact example_pathOk false _ _ _ _ hb hp (by decide) (by decide)
+    (by rw [hbp]; decide) (by rw [hbp]; decide) [([120], [[57]])] (by decide) http [104]
+  refine ⟨u, h1, ?_, ?_, ?_⟩
+  · rw [h2]; decide
+  · rw [h3]; decide
+  · rw [h4]; decide
+
+
+/-- the same request through `build_exact_plain`: nothing is assumed about `url.Parse` -/
+example : ∃ u, build (basePathOf [[97, 112, 105]] ++ GoURLParse.withQuery [120, 61, 49])
+      (patternOf [[.lit [112, 101, 116, 115]], [.ph [105, 100]]] false ++ GoURLParse.withQuery [121, 61, 50])
+      [([105, 100], [97, 47, 98])] [([120], [[57]])] http [104] = some u ∧
+    GoURLParse.escapedPath u = [47, 97, 112, 105, 47, 112, 101, 116, 115, 47, 97, 37, 50, 70, 98] ∧
+    u.path = [47, 97, 112, 105, 47, 112, 101, 116, 115, 47, 97, 47, 98] := by
+  have hst : ∀ s ∈ allSegs [[97, 112, 105]] [[.lit [112, 101, 116, 115]], [.ph [105, 100]]], ∀ b, Tok.lit b ∈ s →
+      ∀ c ∈ b, GoURLParse.validEncodedByte c = true := by
+    intro s hs b hb
+    simp only [allSegs, List.map_cons, List.map_nil, List.cons_append, List.nil_append, List.mem_cons,
+      List.not_mem_nil, or_false] at hs
+    rcases hs with rfl | rfl | rfl <;> simp at hb <;> subst hb <;> decide
+  have hnm : ∀ s ∈ [[Tok.lit [112, 101, 116, 115]], [Tok.ph [105, 100]]], ∀ n, Tok.ph n ∈ s →
+      ∀ c ∈ n, GoURLParse.PlainByte c := by
+    intro s hs n hn
+    simp only [List.mem_cons, List.not_mem_nil, or_false] at hs
+    rcases hs with rfl | rfl <;> simp at hn
+    subst hn
+    intro c hc
+    simp only [List.mem_cons, List.not_mem_nil, or_false] at hc
+    rcases hc with rfl | rfl <;> (refine ⟨?_, ?_, ?_, ?_⟩ <;> decide)
+  obtain ⟨u, h1, _, _, _, _, _, _, h2, h3, _⟩ := build_exact_plain example_pathOk false [120, 61, 49] [121, 61, 50]
+    (by decide) (by decide) hst hnm (by decide) [([120], [[57]])] (by decide) http [104]
+  refine ⟨u, h1, ?_, ?_⟩
+  · rw [h2]; decide
+  · rw [h3]; decide
 
 end RtVerif.C10
